@@ -21,6 +21,7 @@ EXTENDS ZogRef, Json, SequencesExt
 
 CONSTANTS
   MaxLen,            \* chain length bound
+  OptLevel,          \* "few" | "all": how many option combinations per test call
   ChainTy,           \* "str" | "int"
   CasesFile,
   SwNotConsumed,     \* addTest clears isNot after using it
@@ -32,9 +33,11 @@ CONSTANTS
 \* op: "not" | "t" (built-in test) | "tf" (TestFunc) | "req" | "opt" | "def" | "catch"
 Call(op, kind, n, code, path, msg) == [op |-> op, kind |-> kind, n |-> n, code |-> code, path |-> path, msg |-> msg]
 
-OptSets == {[code |-> "", path |-> "", msg |-> ""], [code |-> "cc", path |-> "", msg |-> ""],
-            [code |-> "", path |-> "pp", msg |-> ""], [code |-> "", path |-> "", msg |-> "mm"],
-            [code |-> "cc", path |-> "pp", msg |-> "mm"]}
+OptSets == IF OptLevel = "few"
+           THEN {[code |-> "", path |-> "", msg |-> ""], [code |-> "cc", path |-> "pp", msg |-> "mm"]}
+           ELSE {[code |-> "", path |-> "", msg |-> ""], [code |-> "cc", path |-> "", msg |-> ""],
+                 [code |-> "", path |-> "pp", msg |-> ""], [code |-> "", path |-> "", msg |-> "mm"],
+                 [code |-> "cc", path |-> "pp", msg |-> "mm"]}
 
 \* negatable built-in tests (string: Len, Contains) and plain ones (string: Min; int: GTE, LTE)
 NegKinds == IF ChainTy = "str" THEN {"len", "has"} ELSE {}
@@ -47,8 +50,8 @@ TestCalls(kinds) == {Call("t", k, n, o.code, o.path, o.msg) : k \in kinds, n \in
 OtherCalls ==
   {Call("tf", "lte", 3, o.code, o.path, o.msg) : o \in {x \in OptSets : x.code # ""}}
   \cup {Call("req", "", 0, "", "", m) : m \in {"", "rm"}}
-  \cup {Call("opt", "", 0, "", "", ""), Call("def", "", 1, "", "", ""), Call("def", "", 3, "", "", ""),
-        Call("catch", "", 5, "", "", ""), Call("catch", "", 6, "", "", "")}
+  \cup {Call("opt", "", 0, "", "", ""), Call("def", "", 1, "", "", ""), Call("catch", "", 5, "", "", "")}
+  \cup (IF OptLevel = "few" THEN {} ELSE {Call("def", "", 3, "", "", ""), Call("catch", "", 6, "", "", "")})
 
 \* what the Go type system admits after a given call: Not() returns an interface with the negatable tests only
 NextCalls(prev) ==
